@@ -16,10 +16,10 @@ ALPH = {
     "low": alphabet(prices=(0.4, 1, 2), vols=(1, 2), ttls=(None,), mttls=(None,), dead=(), cancels=2),
 }
 SEEDS_Q = ["deep", "ladder_buy", "ladder_sell", "partial", "crossed_off", "crossed_tie", "mo_one", "mo_both",
-           "mo_both_eq", "expiring", "multi_fill", "chunk4", "halftick"]
+           "mo_both_eq", "expiring", "same_expiry", "multi_fill", "chunk4", "halftick"]
 
 
-KEY_SEEDS = ["ladder_buy", "ladder_sell", "multi_fill", "mo_both", "expiring", "crossed_tie"]
+KEY_SEEDS = ["ladder_buy", "ladder_sell", "multi_fill", "mo_both", "expiring", "same_expiry", "crossed_tie"]
 
 
 def plan(tier, d0=None, dseed=None):
